@@ -262,6 +262,10 @@ def _equality_connect(is_sparse: bool, newton: bool):
     Jqvel = wp.vec3f(0.0, 0.0, 0.0)
     Jdotv = wp.vec3f(0.0, 0.0, 0.0)
 
+    # the constrained bodies themselves (body_invweight0 below is per body, not per weld root)
+    bodyid1 = body1
+    bodyid2 = body2
+
     if wp.static(is_sparse):
       # TODO(team): pre-compute number of non-zeros
       body1 = body_weldid[body1]
@@ -456,7 +460,7 @@ def _equality_connect(is_sparse: bool, newton: bool):
         Jdotv += j1mj2_dot * qvel
 
     body_invweight0_id = worldid % body_invweight0.shape[0]
-    invweight = body_invweight0[body_invweight0_id, body1][0] + body_invweight0[body_invweight0_id, body2][0]
+    invweight = body_invweight0[body_invweight0_id, bodyid1][0] + body_invweight0[body_invweight0_id, bodyid2][0]
     pos_imp = wp.length(pos)
 
     solref = eq_solref[worldid % eq_solref.shape[0], eqid]
@@ -1119,6 +1123,10 @@ def _equality_weld(is_sparse: bool, newton: bool):
     Jdotv_p = wp.vec3f(0.0, 0.0, 0.0)
     Jdotv_r0 = wp.vec3f(0.0, 0.0, 0.0)
 
+    # the constrained bodies themselves (body_invweight0 below is per body, not per weld root)
+    bodyid1 = body1
+    bodyid2 = body2
+
     if wp.static(is_sparse):
       # TODO(team): pre-compute number of non-zeros
       body1 = body_weldid[body1]
@@ -1353,7 +1361,7 @@ def _equality_weld(is_sparse: bool, newton: bool):
     crot = wp.vec3(crotq[1], crotq[2], crotq[3]) * torquescale
 
     body_invweight0_id = worldid % body_invweight0.shape[0]
-    invweight_t = body_invweight0[body_invweight0_id, body1][0] + body_invweight0[body_invweight0_id, body2][0]
+    invweight_t = body_invweight0[body_invweight0_id, bodyid1][0] + body_invweight0[body_invweight0_id, bodyid2][0]
 
     pos_imp = wp.sqrt(wp.length_sq(cpos) + wp.length_sq(crot))
 
@@ -1406,7 +1414,7 @@ def _equality_weld(is_sparse: bool, newton: bool):
 
       efc_aref_out[worldid, efcid + i] -= Jdotv_p[i]
 
-    invweight_r = body_invweight0[body_invweight0_id, body1][1] + body_invweight0[body_invweight0_id, body2][1]
+    invweight_r = body_invweight0[body_invweight0_id, bodyid1][1] + body_invweight0[body_invweight0_id, bodyid2][1]
 
     for i in range(3):
       _efc_row(
